@@ -1945,6 +1945,14 @@ Proof.
     all: destruct Hkind as [->| ->]; [left|right; right]; right; repeat split; reflexivity.
 Qed.
 
+Definition recorded (d : db) (k x : N) : Prop := Rrow d k x \/ Prow d k x \/ Irow d k x.
+Definition keeps (d d' : db) : Prop := forall k x, recorded d k x -> recorded d' k x.
+Lemma keeps_refl d : keeps d d.  Proof. intros k x H. exact H. Qed.
+Lemma keeps_trans a b c : keeps a b -> keeps b c -> keeps a c.
+Proof. intros H1 H2 k x H. apply H2, H1, H. Qed.
+Lemma keeps_grows d d' : grows d d' -> keeps d d'.
+Proof. intros [G1 [G2 [G3 _]]] k x [H|[H|H]]; [left; apply G1, H|right; left; apply G2, H|right; right; apply G3, H]. Qed.
+
 Lemma FInv_move_generic s t l (kind : nat) c2 r2 :
   FInv s -> poisoned s = false -> knownc (f_c s) t -> rstat s t = Some RRunning -> In l (retrier_pending s t) ->
   (kind = 0%nat \/ kind = 2%nat) ->
@@ -1961,7 +1969,8 @@ Lemma FInv_move_generic s t l (kind : nat) c2 r2 :
   | None => lift_site (snd (wt_remove_pending_appointment c2 t l)) = None /\
             FInv (set_c (retrier_drop s t l) (fst (wt_remove_pending_appointment c2 t l))) /\
             c_poisoned (fst (wt_remove_pending_appointment c2 t l)) = false /\
-            (forall k, stat (fst (wt_remove_pending_appointment c2 t l)) k = stat (f_c s) k)
+            (forall k, stat (fst (wt_remove_pending_appointment c2 t l)) k = stat (f_c s) k) /\
+            keeps (c_db (f_c s)) (c_db (fst (wt_remove_pending_appointment c2 t l)))
   end.
 Proof.
   intros HF Hp Hk Hrun Hl Hkind HI2 Hret2 Hst2 Hh2 Hres2 Habort Hok.
@@ -1979,17 +1988,28 @@ Proof.
   assert (HP2 : Prow (c_db c2) t l) by (apply (Prow_ext _ _ t l EPt), HPl).
   destruct (wt_remove_pending_appointment c2 t l) as [c3 r3] eqn:E3. cbn [fst snd].
   destruct (prim_remove_pending _ _ _ _ _ HI2 Hp2 Hk2 HP2 E3) as [HI3 [Hret3 [Hst3 [-> [Hp3 [HPr Hfr]]]]]].
-  split; [reflexivity|]. split; [|split; [exact Hp3|intros k; rewrite Hst3; apply Hst2]].
-  pose proof (Prow_remove _ _ t l HPr) as EP3.
+  split; [reflexivity|]. pose proof (Prow_remove _ _ t l HPr) as EP3.
+  assert (EP0 : forall k x, Prow (c_db c3) k x <-> Prow (c_db (f_c s)) k x /\ ~ (k = t /\ x = l)).
+  { intros k x. rewrite EP3, (Prow_ext _ _ k x EPt). tauto. }
+  assert (ER0 : forall k x, Rrow (c_db c3) k x <-> Rrow (c_db c2) k x) by (intros; apply Rrow_ext, Hfr; discriminate).
+  assert (EI0 : forall k x, Irow (c_db c3) k x <-> Irow (c_db c2) k x) by (intros; apply Irow_ext, Hfr; discriminate).
+  split; [|split; [exact Hp3|split; [intros k; rewrite Hst3; apply Hst2|]]].
+  2:{ intros k x [H|[H|H]].
+      - left. apply ER0, ER. left. exact H.
+      - destruct (N.eq_dec k t) as [->|Hkt]; [destruct (N.eq_dec x l) as [->|Hxl]|].
+        + destruct Hkind as [->| ->]; [left; apply ER0, ER; right; auto|right; right; apply EI0, EI; right; auto].
+        + right. left. apply EP0. split; [exact H|]. intros [_ ?]. contradiction.
+        + right. left. apply EP0. split; [exact H|]. intros [? _]. contradiction.
+      - right. right. apply EI0, EI. left. exact H. }
   assert (EP : forall k x, Prow (c_db c3) k x <-> Prow (c_db (f_c s)) k x /\ ~ (k = t /\ x = l)).
   { intros k x. rewrite EP3, (Prow_ext _ _ k x EPt). tauto. }
   assert (EM3 : forall k, Mrow (c_db c3) k <-> Mrow (c_db (f_c s)) k).
   { intros k. rewrite (Mrow_ext _ _ k (Hfr T_misbehaving_proofs ltac:(discriminate) ltac:(discriminate))). apply EM. }
   apply FInv_client; [exact HF2|exact HI3| |].
-  - rewrite Ed2. apply (DurInv_move (c_db (f_c s)) (c_db c2) (c_db c3) (f_due s) t l kind); auto; try apply HI3.
-    + intros k x. apply Rrow_ext, Hfr; discriminate.
-    + intros k x. apply Irow_ext, Hfr; discriminate.
-    + intros k. rewrite (Trow_ext _ _ k (Hfr T_towers ltac:(discriminate) ltac:(discriminate))). apply ET.
+  - rewrite Ed2.
+    assert (ET3 : forall k, Trow (c_db c3) k <-> Trow (c_db (f_c s)) k).
+    { intros k. rewrite (Trow_ext _ _ k (Hfr T_towers ltac:(discriminate) ltac:(discriminate))). apply ET. }
+    exact (DurInv_move (c_db (f_c s)) (c_db c2) (c_db c3) (f_due s) t l kind (proj1 HI3) Hkind HPl ER EI ER0 EI0 EP EM3 ET3 HD).
   - intros _. split; [unfold poisoned; rewrite Ec2; exact Hp|]. split; [|split].
     + intros k Hk'. apply EM3, V1. rewrite <- Hst2, <- Hst3. exact Hk'.
     + intros k Hk' x Hx. apply EP.
@@ -2068,15 +2088,16 @@ Lemma FInv_run_for t : forall locs s adds s' adds' res,
   run_for s t locs adds = (s', adds', res) ->
   FInv s' /\ (no_abort res -> poisoned s' = false /\ (forall k, knownc (f_c s') k <-> knownc (f_c s) k)) /\
   (res = None -> forall l, In l locs -> ~ In l (retrier_pending s' t)) /\
-  (forall x, In x (retrier_pending s' t) -> In x (retrier_pending s t)) /\ res <> Some RunFuel.
+  (forall x, In x (retrier_pending s' t) -> In x (retrier_pending s t)) /\ res <> Some RunFuel /\
+  keeps (c_db (f_c s)) (c_db (f_c s')).
 Proof.
   induction locs as [|l locs IH]; intros s adds s' adds' res [HF [Hp [Hk Hrun]]] Hnd Hsub E; cbn [run_for] in E.
-  { inversion E. subst. split; [exact HF|]. split; [intros _; split; [exact Hp|tauto]|]. split; [intros _ x []|]. split; [auto|discriminate]. }
+  { inversion E. subst. split; [exact HF|]. split; [intros _; split; [exact Hp|tauto]|]. split; [intros _ x []|]. split; [auto|split; [discriminate|apply keeps_refl]]. }
   unfold poisoned in Hp. pose proof Hp as Hp'. unfold poisoned in E. rewrite Hp in E.
   inversion Hnd as [|? ? Hnl Hnd']. subst.
   pose proof HF as [HI [HD [HV HT]]].
   destruct (dbm_load_appointment (c_db (f_c s)) l) as [body|].
-  2:{ inversion E. subst. split; [|split; [intros []|split; [discriminate|split; [auto|discriminate]]]].
+  2:{ inversion E. subst. split; [|split; [intros []|split; [discriminate|split; [auto|split; [discriminate|apply keeps_refl]]]]].
       apply FInv_poisoned_same_db; [exact HF|apply Inv_poison, HI|reflexivity|reflexivity]. }
   set (s1 := log_req s (ReqAdd t l)) in *.
   assert (HF1 : FInv s1) by (apply (FInv_core s); auto).
@@ -2084,16 +2105,16 @@ Proof.
   (* the continuation after a completed move *)
   assert (Hcont : forall c3 s3, s3 = set_c (retrier_drop s1 t l) c3 \/ True ->
             forall sX, FInv sX -> poisoned sX = false -> (forall k, knownc (f_c sX) k <-> knownc (f_c s) k) -> rstat sX t = Some RRunning ->
-            (forall x, In x (retrier_pending sX t) <-> In x (retrier_pending s t) /\ x <> l) ->
+            (forall x, In x (retrier_pending sX t) <-> In x (retrier_pending s t) /\ x <> l) -> keeps (c_db (f_c s)) (c_db (f_c sX)) ->
             run_for sX t locs adds1 = (s', adds', res) ->
             FInv s' /\ (no_abort res -> poisoned s' = false /\ (forall k, knownc (f_c s') k <-> knownc (f_c s) k)) /\
             (res = None -> forall x, In x (l :: locs) -> ~ In x (retrier_pending s' t)) /\
-            (forall x, In x (retrier_pending s' t) -> In x (retrier_pending s t)) /\ res <> Some RunFuel).
-  { intros _ _ _ sX HFX HpX HkX HrX HpendX EX.
-    destruct (IH sX adds1 s' adds' res) as [A [B [C [D F]]]]; [exact (conj HFX (conj HpX (conj (proj2 (HkX t) Hk) HrX)))|exact Hnd'| |exact EX|].
+            (forall x, In x (retrier_pending s' t) -> In x (retrier_pending s t)) /\ res <> Some RunFuel /\ keeps (c_db (f_c s)) (c_db (f_c s'))).
+  { intros _ _ _ sX HFX HpX HkX HrX HpendX HkeepX EX.
+    destruct (IH sX adds1 s' adds' res) as [A [B [C [D [F G]]]]]; [exact (conj HFX (conj HpX (conj (proj2 (HkX t) Hk) HrX)))|exact Hnd'| |exact EX|].
     - intros x Hx. apply HpendX. split; [apply Hsub; right; exact Hx|]. intros ->. contradiction.
     - split; [exact A|]. split; [intros Hna; destruct (B Hna) as [B1 B2]; split; [exact B1|intros k; rewrite B2; apply HkX]|].
-      split; [|split; [intros x Hx; apply HpendX, D, Hx|exact F]].
+      split; [|split; [intros x Hx; apply HpendX, D, Hx|split; [exact F|eapply keeps_trans; eassumption]]].
       intros Hr x [<-|Hx]; [|apply C; assumption]. intros Hin. apply D, HpendX in Hin. tauto. }
   assert (Hpend_drop : forall sX, (forall k, retrier_pending sX k = retrier_pending (retrier_drop s1 t l) k) ->
             forall x, In x (retrier_pending sX t) <-> In x (retrier_pending s t) /\ x <> l).
@@ -2106,22 +2127,23 @@ Proof.
     destruct (add_receipt_spec_for_move _ _ _ _ _ _ HI Hp' Hk E2) as [S1 [S2 [S3 [S4 [S5 [S6 S7]]]]]].
     pose proof (FInv_move_generic s1 t l 0 c2 r2 HF1 Hp' Hk Hrun Hl (or_introl eq_refl) S1 S2 S3 S4 S5 S6 S7) as Hmove.
     destruct (lift_site r2) as [site|] eqn:El2.
-    + inversion E. subst. split; [exact Hmove|]. split; [intros []|]. split; [discriminate|]. split; [|discriminate].
-      intros x Hx. change (retrier_pending (wr_c (retrier_drop s1 t l) c2) t) with (retrier_pending (retrier_drop s1 t l) t) in Hx.
-      rewrite retrier_pending_drop, N.eqb_refl in Hx. apply In_set_remove in Hx. tauto.
-    + destruct (wt_remove_pending_appointment c2 t l) as [c3 r3] eqn:E3. cbn [fst snd] in Hmove. destruct Hmove as [M1 [M2 [M3 M4]]].
-      rewrite M1 in E. eapply (Hcont c3 (set_c s c3) (or_intror I) (wr_c (wr_c (retrier_drop s1 t l) c2) c3)); [exact M2|exact M3| | | |exact E].
+    + inversion E. subst. split; [exact Hmove|]. split; [intros []|]. split; [discriminate|]. split; [|split; [discriminate|]].
+      * intros x Hx. change (retrier_pending (wr_c (retrier_drop s1 t l) c2) t) with (retrier_pending (retrier_drop s1 t l) t) in Hx.
+        rewrite retrier_pending_drop, N.eqb_refl in Hx. apply In_set_remove in Hx. tauto.
+      * cbn [f_c wr_c]. rewrite S6; [apply keeps_refl|]. destruct S5 as [->|[st0 ->]]; [discriminate El2|reflexivity].
+    + destruct (wt_remove_pending_appointment c2 t l) as [c3 r3] eqn:E3. cbn [fst snd] in Hmove. destruct Hmove as [M1 [M2 [M3 [M4 M5]]]].
+      rewrite M1 in E. eapply (Hcont c3 (set_c s c3) (or_intror I) (wr_c (wr_c (retrier_drop s1 t l) c2) c3)); [exact M2|exact M3| | | |exact M5|exact E].
       * intros k. cbn [f_c wr_c]. apply (knownc_stat _ _ M4).
       * change (rstat (wr_c (wr_c (retrier_drop s1 t l) c2) c3) t) with (rstat (retrier_drop s1 t l) t). rewrite retrier_drop_rstat. exact Hrun.
       * apply Hpend_drop. reflexivity.
-  - inversion E. subst. split; [exact HF1|]. split; [intros _; split; [exact Hp'|tauto]|]. split; [discriminate|]. split; [auto|discriminate].
-  - inversion E. subst. split; [exact HF1|]. split; [intros _; split; [exact Hp'|tauto]|]. split; [discriminate|]. split; [auto|discriminate].
-  - inversion E. subst. split; [exact HF1|]. split; [intros _; split; [exact Hp'|tauto]|]. split; [discriminate|]. split; [auto|discriminate].
-  - inversion E. subst. split; [exact HF1|]. split; [intros _; split; [exact Hp'|tauto]|]. split; [discriminate|]. split; [auto|discriminate].
-  - inversion E. subst. split; [exact HF1|]. split; [intros _; split; [exact Hp'|tauto]|]. split; [discriminate|]. split; [auto|discriminate].
+  - inversion E. subst. split; [exact HF1|]. split; [intros _; split; [exact Hp'|tauto]|]. split; [discriminate|]. split; [auto|split; [discriminate|apply keeps_refl]].
+  - inversion E. subst. split; [exact HF1|]. split; [intros _; split; [exact Hp'|tauto]|]. split; [discriminate|]. split; [auto|split; [discriminate|apply keeps_refl]].
+  - inversion E. subst. split; [exact HF1|]. split; [intros _; split; [exact Hp'|tauto]|]. split; [discriminate|]. split; [auto|split; [discriminate|apply keeps_refl]].
+  - inversion E. subst. split; [exact HF1|]. split; [intros _; split; [exact Hp'|tauto]|]. split; [discriminate|]. split; [auto|split; [discriminate|apply keeps_refl]].
+  - inversion E. subst. split; [exact HF1|]. split; [intros _; split; [exact Hp'|tauto]|]. split; [discriminate|]. split; [auto|split; [discriminate|apply keeps_refl]].
   - (* subscription error *)
     inversion E. subst. split; [refine (FInv_set_status s1 t SubscriptionError HF1 Hp' _); discriminate|].
-    split; [|split; [discriminate|split; [auto|discriminate]]].
+    split; [|split; [discriminate|split; [auto|split; [discriminate|cbn [f_c set_c]; rewrite DbInv_set_status; apply keeps_refl]]]].
     intros _. split.
     + unfold poisoned. cbn [f_c set_c]. destruct (prim_set_status (f_c s) t SubscriptionError HI) as [_ [_ [_ [Hpo _]]]]. rewrite Hpo. exact Hp'.
     + intros k. apply knownc_set_status.
@@ -2131,11 +2153,12 @@ Proof.
     destruct (add_invalid_spec_for_move _ _ _ _ _ _ _ HI Hp' Hk E2) as [S1 [S2 [S3 [S4 [S5 [S6 S7]]]]]].
     pose proof (FInv_move_generic s1 t l 2 c2 r2 HF1 Hp' Hk Hrun Hl (or_intror eq_refl) S1 S2 S3 S4 S5 S6 S7) as Hmove.
     destruct (lift_site r2) as [site|] eqn:El2.
-    + inversion E. subst. split; [exact Hmove|]. split; [intros []|]. split; [discriminate|]. split; [|discriminate].
-      intros x Hx. change (retrier_pending (wr_c (retrier_drop s1 t l) c2) t) with (retrier_pending (retrier_drop s1 t l) t) in Hx.
-      rewrite retrier_pending_drop, N.eqb_refl in Hx. apply In_set_remove in Hx. tauto.
-    + destruct (wt_remove_pending_appointment c2 t l) as [c3 r3] eqn:E3. cbn [fst snd] in Hmove. destruct Hmove as [M1 [M2 [M3 M4]]].
-      rewrite M1 in E. eapply (Hcont c3 (set_c s c3) (or_intror I) (wr_c (wr_c (retrier_drop s1 t l) c2) c3)); [exact M2|exact M3| | | |exact E].
+    + inversion E. subst. split; [exact Hmove|]. split; [intros []|]. split; [discriminate|]. split; [|split; [discriminate|]].
+      * intros x Hx. change (retrier_pending (wr_c (retrier_drop s1 t l) c2) t) with (retrier_pending (retrier_drop s1 t l) t) in Hx.
+        rewrite retrier_pending_drop, N.eqb_refl in Hx. apply In_set_remove in Hx. tauto.
+      * cbn [f_c wr_c]. rewrite S6; [apply keeps_refl|]. destruct S5 as [->|[st0 ->]]; [discriminate El2|reflexivity].
+    + destruct (wt_remove_pending_appointment c2 t l) as [c3 r3] eqn:E3. cbn [fst snd] in Hmove. destruct Hmove as [M1 [M2 [M3 [M4 M5]]]].
+      rewrite M1 in E. eapply (Hcont c3 (set_c s c3) (or_intror I) (wr_c (wr_c (retrier_drop s1 t l) c2) c3)); [exact M2|exact M3| | | |exact M5|exact E].
       * intros k. cbn [f_c wr_c]. apply (knownc_stat _ _ M4).
       * change (rstat (wr_c (wr_c (retrier_drop s1 t l) c2) c3) t) with (rstat (retrier_drop s1 t l) t). rewrite retrier_drop_rstat. exact Hrun.
       * apply Hpend_drop. reflexivity.
@@ -2181,27 +2204,27 @@ Qed.
 Lemma FInv_run_while t hint : forall fuel s adds s' res,
   RunPre s t -> run_while fuel s t hint adds = (s', res) ->
   FInv s' /\ (match res with RunAbort _ => False | _ => True end -> poisoned s' = false /\ (forall k, knownc (f_c s') k <-> knownc (f_c s) k)) /\
-  (res = RunOk -> retrier_pending s' t = []).
+  (res = RunOk -> retrier_pending s' t = []) /\ keeps (c_db (f_c s)) (c_db (f_c s')).
 Proof.
   induction fuel as [|f IH]; intros s adds s' res Hpre E; cbn [run_while] in E.
-  { inversion E. subst. destruct Hpre as [HF [Hp _]]. split; [exact HF|]. split; [intros _; split; [exact Hp|tauto]|discriminate]. }
+  { inversion E. subst. destruct Hpre as [HF [Hp _]]. split; [exact HF|]. split; [intros _; split; [exact Hp|tauto]|split; [discriminate|apply keeps_refl]]. }
   destruct (retrier_pending s t) as [|x p] eqn:Ep.
-  { inversion E. subst. destruct Hpre as [HF [Hp _]]. split; [exact HF|]. split; [intros _; split; [exact Hp|tauto]|intros _; exact Ep]. }
+  { inversion E. subst. destruct Hpre as [HF [Hp _]]. split; [exact HF|]. split; [intros _; split; [exact Hp|tauto]|split; [intros _; exact Ep|apply keeps_refl]]. }
   destruct (run_for s t (reorder hint (x :: p)) adds) as [[s1 adds1] r1] eqn:E1.
   pose proof Hpre as [HF [Hp [Hk Hrun]]].
   assert (Hnd : NoDup (x :: p)).
   { destruct HF as [_ [_ [HV _]]]. destruct (HV Hp) as [_ [_ [_ [V4 _]]]]. unfold retrier_pending in Ep.
     destruct (aget (f_mgr s) t) as [r|] eqn:Er; [|discriminate]. rewrite <- Ep. eapply V4, Er. }
-  destruct (FInv_run_for t _ s adds s1 adds1 r1 Hpre (NoDup_reorder hint _ Hnd)) as [A [B [C [D F]]]]; [|exact E1|].
+  destruct (FInv_run_for t _ s adds s1 adds1 r1 Hpre (NoDup_reorder hint _ Hnd)) as [A [B [C [D [F G]]]]]; [|exact E1|].
   { intros l Hl. rewrite Ep. apply In_reorder in Hl. exact Hl. }
   destruct r1 as [r|].
-  - destruct (run_for_not_ok t _ _ _ _ _ _ E1) as [Hnok _]. inversion E. subst. split; [exact A|]. split; [|intros ->; exfalso; apply Hnok; reflexivity].
+  - destruct (run_for_not_ok t _ _ _ _ _ _ E1) as [Hnok _]. inversion E. subst. split; [exact A|]. split; [|split; [intros ->; exfalso; apply Hnok; reflexivity|exact G]].
     intros Hna. apply B. destruct res; auto.
   - destruct (B I) as [Hp1 Hk1].
     assert (Hpre1 : RunPre s1 t).
     { split; [exact A|]. split; [exact Hp1|]. split; [apply Hk1, Hk|].
       pose proof (run_for_same t (reorder hint (x :: p)) s adds) as [_ Hs]. rewrite E1 in Hs. cbn [fst] in Hs. rewrite Hs. exact Hrun. }
-    destruct (IH s1 adds1 s' res Hpre1 E) as [A' [B' C']]. split; [exact A'|]. split; [|exact C'].
+    destruct (IH s1 adds1 s' res Hpre1 E) as [A' [B' [C' K']]]. split; [exact A'|]. split; [|split; [exact C'|eapply keeps_trans; eassumption]].
     intros Hna. destruct (B' Hna) as [X Y]. split; [exact X|]. intros k. rewrite Y. apply Hk1.
 Qed.
 
@@ -2239,32 +2262,39 @@ Qed.
 Lemma FInv_run_attempt s t a s' res :
   FInv s -> rstat s t = Some RRunning -> run_attempt s t a = (s', res) ->
   FInv s' /\ (match res with RunAbort _ => False | _ => True end -> poisoned s' = false) /\
-  (res = RunOk -> retrier_pending s' t = [] /\ knownc (f_c s') t).
+  (res = RunOk -> retrier_pending s' t = [] /\ knownc (f_c s') t) /\ keeps (c_db (f_c s)) (c_db (f_c s')).
 Proof.
   intros HF Hrun E. unfold run_attempt in E. destruct (poisoned s) eqn:Hp.
-  { inversion E. subst. split; [exact HF|]. split; [intros []|discriminate]. }
+  { inversion E. subst. split; [exact HF|]. split; [intros []|split; [discriminate|apply keeps_refl]]. }
   destruct (aget (c_towers (f_c s)) t) as [su|] eqn:Et.
-  2:{ inversion E. subst. split; [exact HF|]. split; [intros _; exact Hp|discriminate]. }
+  2:{ inversion E. subst. split; [exact HF|]. split; [intros _; exact Hp|split; [discriminate|apply keeps_refl]]. }
   assert (Hk : knownc (f_c s) t) by (unfold knownc, amem; rewrite Et; reflexivity).
   assert (Hgo : forall s0, FInv s0 -> poisoned s0 = false -> knownc (f_c s0) t -> rstat s0 t = Some RRunning ->
             run_while (run_fuel s0 t) s0 t (at_order a) (at_adds a) = (s', res) ->
             FInv s' /\ (match res with RunAbort _ => False | _ => True end -> poisoned s' = false) /\
-            (res = RunOk -> retrier_pending s' t = [] /\ knownc (f_c s') t)).
+            (res = RunOk -> retrier_pending s' t = [] /\ knownc (f_c s') t) /\ keeps (c_db (f_c s0)) (c_db (f_c s'))).
   { intros s0 H0 Hp0 Hk0 Hr0 E0.
-    destruct (FInv_run_while t (at_order a) _ s0 (at_adds a) s' res (conj H0 (conj Hp0 (conj Hk0 Hr0))) E0) as [A [B C]].
-    split; [exact A|]. split; [intros Hna; apply B, Hna|]. intros ->. split; [apply C; reflexivity|]. apply (proj2 (B I)). exact Hk0. }
+    destruct (FInv_run_while t (at_order a) _ s0 (at_adds a) s' res (conj H0 (conj Hp0 (conj Hk0 Hr0))) E0) as [A [B [C K]]].
+    split; [exact A|]. split; [intros Hna; apply B, Hna|]. split; [|exact K]. intros ->. split; [apply C; reflexivity|]. apply (proj2 (B I)). exact Hk0. }
   destruct (is_subscription_error (su_status su)); [|apply (Hgo s HF Hp Hk Hrun E)].
   set (s1 := log_req s (ReqRegister t)) in *.
   assert (HF1 : FInv s1) by (apply (FInv_core s); auto).
   destruct (at_reg a) as [slots start expiry sig_ok| | | |];
-    try (inversion E; subst; split; [exact HF1|]; split; [intros _; exact Hp|discriminate]).
-  destruct (negb sig_ok); [inversion E; subst; split; [exact HF1|]; split; [intros _; exact Hp|discriminate]|].
+    try (inversion E; subst; split; [exact HF1|]; split; [intros _; exact Hp|split; [discriminate|apply keeps_refl]]).
+  destruct (negb sig_ok); [inversion E; subst; split; [exact HF1|]; split; [intros _; exact Hp|split; [discriminate|apply keeps_refl]]|].
   destruct (wt_add_update_tower (f_c s1) t (su_addr su) slots start expiry REG_SIG) as [c' r] eqn:Eu.
   destruct (FInv_renew s1 t _ _ _ _ _ c' r HF1 Hp Hk Eu) as [HF2 Hok].
-  destruct r; try (inversion E; subst; split; [exact HF2|]; split; [intros _; apply Hok; reflexivity|discriminate]).
+  assert (Hkeep : keeps (c_db (f_c s)) (c_db c')).
+  { pose proof HF as [HI _]. destruct (prim_add_update_tower _ _ _ _ _ _ _ _ _ HI Hp Eu) as [_ [_ [_ [[Ed _]|[_ [_ [_ [_ [_ Hfr]]]]]]]]].
+    - rewrite Ed. apply keeps_refl.
+    - intros k x [H|[H|H]]; [left; apply (Rrow_ext _ _ k x (Hfr T_appointment_receipts ltac:(discriminate) ltac:(discriminate))), H
+        |right; left; apply (Prow_ext _ _ k x (Hfr T_pending_appointments ltac:(discriminate) ltac:(discriminate))), H
+        |right; right; apply (Irow_ext _ _ k x (Hfr T_invalid_appointments ltac:(discriminate) ltac:(discriminate))), H]. }
+  destruct r; try (inversion E; subst; split; [exact HF2|]; split; [intros _; apply Hok; reflexivity|split; [discriminate|exact Hkeep]]).
   - destruct (Hok eq_refl) as [Hp2 Hkn2].
-    apply (Hgo (wr_c s1 c')); [exact HF2|exact Hp2|apply Hkn2, Hk|exact Hrun|exact E].
-  - inversion E. subst. split; [exact HF2|]. split; [intros []|discriminate].
+    destruct (Hgo (wr_c s1 c')) as [A [B [C K]]]; [exact HF2|exact Hp2|apply Hkn2, Hk|exact Hrun|exact E|].
+    split; [exact A|]. split; [exact B|]. split; [exact C|]. eapply keeps_trans; [exact Hkeep|exact K].
+  - inversion E. subst. split; [exact HF2|]. split; [intros []|split; [discriminate|exact Hkeep]].
 Qed.
 
 (* ---- the arms after retry_notify ---- *)
@@ -2677,7 +2707,7 @@ Proof.
   { destruct HF as [_ [_ [HV _]]]. destruct (HV Hp) as [_ [_ [_ [V4 _]]]]. unfold retrier_pending in Ep.
     destruct (aget (f_mgr s) t) as [r|] eqn:Er; [|discriminate]. rewrite <- Ep. eapply V4, Er. }
   pose proof (NoDup_reorder hint _ Hnd) as Hndr.
-  destruct (FInv_run_for t _ s adds s1 adds1 r1 Hpre Hndr) as [A [B [C [D F]]]]; [|exact E1|].
+  destruct (FInv_run_for t _ s adds s1 adds1 r1 Hpre Hndr) as [A [B [C [D [F G]]]]]; [|exact E1|].
   { intros l Hl. rewrite Ep. apply In_reorder in Hl. exact Hl. }
   destruct (run_for_log t _ s adds s1 adds1 r1 E1) as [dn [rest [Hsplit [Hlog Hrest]]]].
   assert (Hsent : NoDup dn /\ incl dn (x :: p)).
@@ -2735,4 +2765,69 @@ Proof.
   destruct (Hok eq_refl) as [Hp2 Hkn2].
   destruct (Hgo (wr_c s1 c') [ReqRegister t] HF2 Hp2 (proj2 (Hkn2 t) Hk) Hrun eq_refl eq_refl) as [A [sent [B C]]].
   split; [exact A|]. exists [ReqRegister t], sent. split; [exact B|]. split; [right; reflexivity|exact C].
+Qed.
+
+(* ====================================================================== *)
+(* C05 no_record_lost_by_retry                                            *)
+(* ====================================================================== *)
+Lemma c_db_retrier_set_status s t st : c_db (f_c (retrier_set_status s t st)) = c_db (f_c s).
+Proof. unfold retrier_set_status. destruct (aget (f_mgr s) t); reflexivity. Qed.
+Lemma f_c_retrier_set_status s t st : f_c (retrier_set_status s t st) = f_c s.
+Proof. unfold retrier_set_status. destruct (aget (f_mgr s) t); reflexivity. Qed.
+Lemma f_c_retrier_clear s t : f_c (retrier_clear s t) = f_c s.
+Proof. unfold retrier_clear. destruct (aget (f_mgr s) t); reflexivity. Qed.
+
+Lemma task_step_keeps s t r more :
+  Inv (f_c s) -> (match r with RunAbort _ => False | _ => True end -> poisoned s = false) ->
+  keeps (c_db (f_c s)) (c_db (f_c (fst (task_step s t r more)))).
+Proof.
+  intros HI Hnp. unfold task_step. destruct r as [|e|site|]; cbn [fst].
+  - cbn [f_c end_task set_tasks]. rewrite f_c_retrier_set_status. cbn [f_c set_c c_db with_retriers]. rewrite DbInv_set_status. apply keeps_refl.
+  - destruct (negb (is_permanent e) && more); [apply keeps_refl|].
+    set (s1 := if is_permanent e then retrier_set_status s t RFailed else s).
+    assert (Ec1 : f_c s1 = f_c s) by (unfold s1; destruct (is_permanent e); [apply f_c_retrier_set_status|reflexivity]).
+    destruct e as [[|]| |l|]; cbn [fst f_c end_task set_tasks set_c].
+    + rewrite DbInv_set_status, Ec1. apply keeps_refl.
+    + rewrite f_c_retrier_clear, f_c_retrier_set_status. cbn [f_c set_c]. rewrite DbInv_set_status. cbn [c_db with_retriers]. rewrite Ec1. apply keeps_refl.
+    + rewrite f_c_retrier_clear, f_c_retrier_set_status. cbn [f_c set_c]. rewrite DbInv_set_status. cbn [c_db with_retriers]. rewrite Ec1. apply keeps_refl.
+    + rewrite Ec1. destruct (wt_flag_misbehaving_tower (f_c s) t l START_BLOCK USER_SIG SIG_OTHER (other_id t)) as [c2 r2] eqn:E2.
+      destruct (prim_flag _ _ _ _ _ _ _ _ _ HI (Hnp I) E2) as [_ [_ [_ Heff]]].
+      assert (Hk : keeps (c_db (f_c s)) (c_db c2)).
+      { destruct Heff as [[Ed _]|[_ [_ [_ [_ [T5 [T6 Hfr]]]]]]]; [rewrite Ed; apply keeps_refl|].
+        intros k x [H|[H|H]].
+        - left. apply (Rrow_app _ _ _ _ _ _ _ k x T5). left. exact H.
+        - right. left. apply (Prow_ext _ _ k x (Hfr T_pending_appointments ltac:(discriminate) ltac:(discriminate))), H.
+        - right. right. apply (Irow_ext _ _ k x (Hfr T_invalid_appointments ltac:(discriminate) ltac:(discriminate))), H. }
+      destruct (lift_site r2); cbn [fst f_c end_task set_tasks set_c wr_c]; exact Hk.
+    + rewrite Ec1. apply keeps_refl.
+  - apply keeps_refl.
+  - apply keeps_refl.
+Qed.
+
+Lemma retrier_run_keeps t : forall atts s, FInv s -> keeps (c_db (f_c s)) (c_db (f_c (fst (f_retrier_run s t atts)))).
+Proof.
+  induction atts as [|a atts IH]; intros s HF; cbn [f_retrier_run]; [apply keeps_refl|].
+  destruct (memN t (f_tasks s)) eqn:Em; cbn [negb]; [|apply keeps_refl].
+  assert (Hrun : rstat s t = Some RRunning) by (apply HF, memN_In, Em).
+  destruct (run_attempt s t a) as [s1 r] eqn:E1.
+  destruct (FInv_run_attempt s t a s1 r HF Hrun E1) as [HF1 [Hnp [_ K1]]].
+  assert (Hrun1 : rstat s1 t = Some RRunning).
+  { pose proof (run_attempt_same s t a) as [_ Hs]. rewrite E1 in Hs. cbn [fst] in Hs. rewrite Hs. exact Hrun. }
+  pose proof (FInv_task_step s1 t r (at_more a) HF1 Hrun1 Hnp) as HF2.
+  pose proof (task_step_keeps s1 t r (at_more a) (proj1 HF1) Hnp) as K2.
+  destruct (task_step s1 t r (at_more a)) as [s2 o]. cbn [fst] in HF2, K2.
+  assert (K : keeps (c_db (f_c s)) (c_db (f_c s2))) by (eapply keeps_trans; eassumption).
+  destruct o; try exact K. destruct atts; [exact K|]. eapply keeps_trans; [exact K|apply IH, HF2].
+Qed.
+
+(* a retrier run never loses a record: every (tower, locator) that had a receipt, a pending row or an invalid
+   row before still has one of the three after — from every state of every guarded operation sequence, for every
+   reply sequence given to the retrier *)
+Theorem no_record_lost_by_retry ops t atts :
+  ops_fresh f_init ops = true ->
+  let s := frun f_init ops in
+  forall k x, recorded (c_db (f_c s)) k x -> recorded (c_db (f_c (fst (fstep s (FRetrierRun t atts))))) k x.
+Proof.
+  intros Hg s k x H. pose proof (FInv_frun ops f_init FInv_init Hg) as HF. fold s in HF.
+  cbn [fstep]. pose proof (retrier_run_keeps t atts s HF) as K. destruct (f_retrier_run s t atts) as [s' o]. cbn [fst] in *. apply K, H.
 Qed.
